@@ -77,5 +77,106 @@ def rules(repo, tier):
     out.append(rule_layout(repo, 'C02.LT', [
         ('SO3_Log', ['SO3'], 'so3'), ('SE3_Log', ['SE3'], 'se3'), ('RxSO3_Log', ['RxSO3'], 'rxso3'), ('Sim3_Log', ['Sim3'], 'sim3')], floor=4))
     out.append(rule_pair(repo))
+    out.append(rule_range(repo))
     out.append(rule_dispatch(repo, 'C02.DT', 'Log', GROUPS, lambda G: G + '_Log', lambda G: ALG[G] + '_type', floor=6, wrapper='Log'))
     return out
+
+
+# ---------------------------------------------------------------- RANGE: interval analysis of the rotation angle returned by SO3_Log
+
+import math   # noqa: E402
+PI = math.pi
+
+
+def _interval(e, env):
+    """closed interval (lo, hi) containing the values of e, or None if unknown.  env: name dump -> interval"""
+    d = dump(e)
+    if d in env:
+        return env[d]
+    if isinstance(e, ast.Constant) and isinstance(e.value, (int, float)):
+        return (float(e.value), float(e.value))
+    if isinstance(e, ast.Attribute) and dotted(e) in ('torch.pi', 'math.pi'):
+        return (PI, PI)
+    if isinstance(e, ast.UnaryOp) and isinstance(e.op, ast.USub):
+        i = _interval(e.operand, env)
+        return None if i is None else (-i[1], -i[0])
+    if isinstance(e, ast.Call):
+        fn = dotted(e.func) or ''
+        name = fn.split('.')[-1] if fn else (e.func.attr if isinstance(e.func, ast.Attribute) else '')
+        args = list(e.args)
+        if isinstance(e.func, ast.Attribute) and not fn.startswith(('torch.', 'math.')):
+            args = [e.func.value] + args
+        if name in ('atan', 'arctan'):
+            return (-PI / 2, PI / 2)
+        if name in ('atan2', 'arctan2') and len(args) >= 2:
+            y = _interval(args[0], env)
+            if y is not None and y[0] >= 0:
+                return (0.0, PI)
+            if y is not None and y[1] <= 0:
+                return (-PI, 0.0)
+            return (-PI, PI)
+        if name in ('acos', 'arccos'):
+            return (0.0, PI)
+        if name in ('asin', 'arcsin'):
+            return (-PI / 2, PI / 2)
+        if name in ('pm', 'sign', 'sgn'):
+            return (-1.0, 1.0)
+        if name in ('nan_to_num', 'clone') and args:
+            return _interval(args[0], env)
+        if name == 'abs' and args:
+            i = _interval(args[0], env)
+            return None if i is None else (0.0, max(abs(i[0]), abs(i[1])))
+        if name in ('norm',):
+            return (0.0, float('inf'))
+        return None
+    if isinstance(e, ast.BinOp):
+        a, b = _interval(e.left, env), _interval(e.right, env)
+        if a is None or b is None:
+            return None
+        if isinstance(e.op, ast.Add):
+            return (a[0] + b[0], a[1] + b[1])
+        if isinstance(e.op, ast.Sub):
+            return (a[0] - b[1], a[1] - b[0])
+        if isinstance(e.op, ast.Mult):
+            ps = [x * y for x in a for y in b if not (math.isinf(x) and y == 0) and not (math.isinf(y) and x == 0)]
+            return (min(ps), max(ps)) if ps else None
+        return None
+    return None
+
+
+def rule_range(repo):
+    res = RuleResult('C02.RANGE', 'principal range by interval analysis: in every branch of SO3_Log whose factor is ANGLE / |v| the numerator '
+                     'ANGLE lies in [-pi, pi] (atan in (-pi/2, pi/2), atan2 of a non-negative first argument in [0, pi], pm in [-1, 1]), so the '
+                     'rotation part of Log(X) has norm at most pi', floor=2)
+    f = repo.func(OP, 'SO3_Log.forward')
+    rets = returns_of(f.node)
+    v = inline_straight(f.node, upto=rets[0]).value(rets[0].value)
+    # |v| : every norm(...) call is non-negative
+    env = {}
+    for n in ast.walk(v):
+        if isinstance(n, ast.Call) and (dotted(n.func) or '').split('.')[-1] == 'norm':
+            env[dump(n)] = (0.0, float('inf'))
+    n_terms = 0
+    for n in ast.walk(v):
+        if isinstance(n, ast.BinOp) and isinstance(n.op, ast.Div):
+            den = masks.strip(n.right)
+            if isinstance(den, ast.Call) and (dotted(den.func) or '').split('.')[-1] == 'norm':
+                num = n.left
+                iv = _interval(num, env)
+                # only numerators that are angles (built from an inverse trigonometric function or pi)
+                is_angle = any((isinstance(x, ast.Call) and (dotted(x.func) or '').split('.')[-1] in ('atan', 'atan2', 'arctan', 'arctan2', 'acos', 'asin'))
+                               or (isinstance(x, ast.Attribute) and dotted(x) in ('torch.pi', 'math.pi')) for x in ast.walk(num))
+                if not is_angle:
+                    continue
+                n_terms += 1
+                ok = iv is not None and iv[0] >= -PI - 1e-12 and iv[1] <= PI + 1e-12
+                res.inst({'function': f.fq, 'angle': src(num)[:60], 'interval': iv, 'within_pi': ok}, dump(num))
+                if iv is None:
+                    res.unresolved += 1
+                elif not ok:
+                    res.add(Finding('C02.RANGE', f, 'the rotation angle `%s` ranges over [%.4f, %.4f], beyond the principal range [-pi, pi]: '
+                                    'Log returns a rotation vector longer than pi for part of the quaternion sphere' % (src(num)[:60], iv[0], iv[1]),
+                                    construct='angle range ' + src(num)[:60]))
+    if n_terms < 2:
+        raise AnalysisError('C02.RANGE: found %d angle/|v| terms in SO3_Log.forward, expected 2' % n_terms)
+    return res
